@@ -67,7 +67,8 @@ W5 = {"name": "w5", "ignore": "packaged/\n", "package_dir": None, "buildpacks": 
 W6 = {"name": "w6", "ignore": "packaged/\n", "package_dir": None, "buildpacks": [
     {"id": "verif/root-meta", "dir": "", "kind": "composite", "deps": ["libcnb:verif/inner"]},
     {"id": "verif/inner", "dir": "nested/inner", "kind": "libcnb", "pkg": "inner", "bins": ["inner"]},
-    {"id": "verif/second", "dir": "nested/second", "kind": "libcnb", "pkg": "second", "bins": ["second"]},
+    # its only binary target is not named after the package (src/bin/entry.rs, no src/main.rs): it is the main binary, and nothing else
+    {"id": "verif/second", "dir": "nested/second", "kind": "libcnb", "pkg": "second", "bins": ["entry"], "no_main_rs": True},
 ]}
 
 
@@ -94,7 +95,7 @@ def generate(ws, root):
             os.makedirs(os.path.join(d, "src", "bin"))
             for i, b in enumerate(bp["bins"]):
                 body = f'fn main() {{ println!("{bp["id"]}:{b}"); }}\n'
-                if i == 0 and not bp.get("ambiguous"):
+                if i == 0 and not bp.get("ambiguous") and not bp.get("no_main_rs"):
                     open(os.path.join(d, "src", "main.rs"), "w").write(body)
                 else:
                     open(os.path.join(d, "src", "bin", f"{b}.rs"), "w").write(body)
